@@ -121,8 +121,13 @@ func errDropsIn(prog *an.Prog, fn *ssa.Function) []errDrop {
 		if alloc == nil {
 			reach := map[*ssa.BasicBlock]bool{}
 			var walk func(x *ssa.BasicBlock)
+			// a way that comes back to the definition (a loop) leads to the next iteration's value, not to this one
+			var defBlock *ssa.BasicBlock
+			if in, ok := t.(ssa.Instruction); ok {
+				defBlock = in.Block()
+			}
 			walk = func(x *ssa.BasicBlock) {
-				if reach[x] {
+				if reach[x] || x == defBlock {
 					return
 				}
 				reach[x] = true
